@@ -27,6 +27,7 @@ RULE = ('8 helpers (route/resource/static/current_route x url/path) on generated
         'with the same call without them (no segment nobody supplied) and the route part of the path, decoded as a whole, with '
         'spec_path_text computed in Coq (the pattern filled with the supplied values; C17_generate_decodes_text); registrations made after URLs were generated on the half-built configuration; '
         'texts made only of one Unicode class beyond ASCII (digits of other scripts, superscripts, spaces, case-mapping letters, marks); '
+        'resource_url: the path is the lineage names below the virtual root (non-ASCII X-Vhm-Root headers are WSGI strings); '
         'sadd stream: the registrations a sequence of add_static_view statements leaves behind vs the Coq model of StaticURLInfo.add; '
         'plus urllib.parse decoder, urljoin and quote streams. non-trivial = a URL was '
         'produced AND (some supplied element/query/anchor/script character needs quoting OR an override is present OR the '
@@ -815,6 +816,14 @@ def targeted(broken, disagreements, rng):
             c3['env']['script_name'] = '/' + ch
             c3['ov']['query'] = ['s', ch]
             out.append(c3)
+    # virtual roots with non-ASCII segments (the header is a WSGI string), matching a prefix of the lineage
+    for names in (['sites', 'caf\xe9', 'docs'], ['\u65e5\u672c', 'a'], ['\u20ac'], ['a b', '\xfc', 'x']):
+        for k in range(1, len(names) + 1):
+            for tail in ('', '/', '/./'):
+                c = gen_resource_case(rng)
+                c.update(names=[['s', x] for x in names], vroot=_wsgi('/' + '/'.join(names[:k]) + tail), rn=None, routes=[])
+                c['ov']['app_url'] = None
+                out.append(c)
     for s in OV_SCHEMES:
         for h in [None] + OV_HOSTS:
             for p in [None] + OV_PORTS:
@@ -1681,6 +1690,39 @@ def _route_part(case, U):
     return rest
 
 
+def _expected_resource_segments(case):
+    """(3) resource_url without route_name=: the path after the script name is '/' + the lineage names + '/', each name
+    a segment (`__name__ or ''`), with the segments of the virtual root (X-Vhm-Root: a WSGI string, i.e. UTF-8 bytes read
+    as latin-1; empty and '.' segments dropped, '..' pops) trimmed when they are a prefix of the names.  None: not applicable"""
+    try:
+        texts, keys = [], []
+        for n in case['names']:
+            py = _py_pval(n)
+            if not py:
+                texts.append('')
+                keys.append('')
+            else:
+                texts.append(_ptext(n))
+                keys.append(_ptext(n) if n[0] == 's' else None)      # only a str name can equal a header segment
+        v = case.get('vroot')
+        if v is not None:
+            t = v.encode('latin-1').decode('utf-8')
+            vt = []
+            for seg in t.split('/'):
+                if not seg or seg == '.':
+                    continue
+                if seg == '..':
+                    if vt:
+                        vt.pop()
+                else:
+                    vt.append(seg)
+            if vt and keys[:len(vt)] == vt:
+                texts = texts[len(vt):]
+    except (UnicodeDecodeError, UnicodeEncodeError):
+        return None
+    return [''] + texts + ['']
+
+
 def _path_relations(case, req, cfg, h, ov, els, U):
     """two declarative relations the parsed-URL judge cannot see, observed on the implementation:
     (1) the path of the URL with extra elements is the path of the same URL without them, one trailing empty segment
@@ -1711,6 +1753,12 @@ def _path_relations(case, req, cfg, h, ov, els, U):
         exp = [_unq(x) for x in base] + want
         if got != exp:
             return ['path segments with the extra elements are %r, without them %r + the elements %r' % (got, base, want)], []
+    if h == 'resource' and case.get('rn') is None:
+        exp = _expected_resource_segments(case)
+        got = [_unq(x) for x in rb.split('/')]
+        if exp is not None and got != exp:
+            return ['the resource part of the path has the segments %r; the lineage names below the virtual root are %r'
+                    % (got, exp)], []
     if _path_spec_wire(case) is None:
         return [], []
     d = _unq(rb)
